@@ -158,8 +158,8 @@ def strata():
                      gen_cfg.model_and_spec(force=['empty_itf', 'many_ports'], want_mixed=True),
                      gen_cfg.model_and_spec(force=['no_ports']),
                      gen_cfg.model_and_spec(force=['many_provides'], want_mc=True),
-                     gen_cfg.model_and_spec(force=['prefix_ns', 'deep_ns']),
-                     gen_cfg.model_and_spec(force=['deep_ns', 'same_name_siblings']),
+                     gen_cfg.model_and_spec(force=['prefix_ns', 'deep_ns'], shadow=True),
+                     gen_cfg.model_and_spec(force=['deep_ns', 'same_name_siblings'], shadow=True),
                      gen_cfg.model_and_spec(force=['deep_ns', 'ref_extern', 'prefix_ports'], want_mc=True),
                      gen_cfg.model_and_spec(force=['global_enc'], want_mc=True)]
 
@@ -310,7 +310,7 @@ def run(ctx):
         return
     from vf.draw import draw_stratified
     from vf.runner import load_regress
-    cases = load_regress(ctx.prop, name) + draw_stratified(strata(), 16 if ctx.quick else 300,
+    cases = load_regress(ctx.prop, name) + draw_stratified(strata(), 20 if ctx.quick else 300,
                                                            ctx.seed, wrap=with_order)
     for c in cases:
         ctx.record(c, nontrivial(c), labels(c))
